@@ -309,8 +309,12 @@ struct H {
         if (nf == 0) { w.dfmt.hex = true; w.ffmt.hex = true; } else if (nf == 1) { w.dfmt.precision = 17; w.ffmt.precision = 17; }
         else {
             w.dfmt.precision = (int)c.range(1, 16);
-            int pmin = 1; for (auto &m : ms) { std::vector<double> fv; for (auto &fr : m.t.data) fv.push_back(fr.f); while (pmin < 17 && !ascending_at(fv, pmin)) pmin++; }
-            w.ffmt.precision = (int)c.range(pmin, 17);
+            // "ascending after rounding" is not monotone in the precision (1.49e3, 1.51e3: fine at 1 digit, equal at 2):
+            // pick a precision, then raise it until EVERY calibration's rounded grid is strictly ascending
+            int pfm = (int)c.range(1, 17);
+            auto all_asc = [&](int p) { for (auto &m : ms) { std::vector<double> fv; for (auto &fr : m.t.data) fv.push_back(fr.f); if (!ascending_at(fv, p)) return false; } return true; };
+            while (pfm < 17 && !all_asc(pfm)) pfm++;
+            w.ffmt.precision = pfm;
         }
         w.yaml_header = !c.chance(1, 4); w.all_flow = c.chance(1, 3); w.end_marker = c.chance(1, 3);
         // One history in twelve: the same file made invalid in one place -- a block missing from one
@@ -563,8 +567,10 @@ struct H {
         saves++;
         // frequencies that would collapse at the precision in force cannot survive any text format: keep them apart by construction
         int pfe = pf == -1 ? 7 : pf, pde = pd == -1 ? 6 : pd;
-        int need = 1;
-        for (auto &kv : cals) { std::vector<double> fv; for (auto &fr : kv.second.t.data) fv.push_back(fr.f); while (need < 17 && !ascending_at(fv, need)) need++; }
+        // (not monotone in the precision: test the precision in force itself, then raise)
+        auto all_asc = [&](int p) { for (auto &kv : cals) { std::vector<double> fv; for (auto &fr : kv.second.t.data) fv.push_back(fr.f); if (!ascending_at(fv, p)) return false; } return true; };
+        int need = pfe == VNACAL_MAX_PRECISION ? 1 : pfe;
+        while (need < 17 && !all_asc(need)) need++;
         if (pfe != VNACAL_MAX_PRECISION && pfe < need) {
             c.note("set_fprecision(%d)   [frequencies would no longer be ascending at %d digits]", need, pfe);
             c.label("fprecision-raised-to-keep-ascending");
